@@ -73,6 +73,11 @@ CFGS = {
     # never accepted for a specific op, dropped under '*':
     'bad_drq16': (MINMAX, C(None, T(16, True, GR.TENSORWISE), CP.INTEGER)),
     'bad_wo8_noexplicit': (MINMAX, C(None, T(8, True, GR.TENSORWISE), CP.FLOAT, False)),
+    # near misses: one field away from an accepted config
+    'bad_drq8_explicit': (MINMAX, C(None, T(8, True, GR.CHANNELWISE), CP.INTEGER, True)),
+    'bad_srq8_explicit': (MINMAX, C(T(8, False), T(8, True, GR.CHANNELWISE), CP.INTEGER, True)),
+    'bad_srq8_wasym': (MINMAX, C(T(8, False), T(8, False, GR.CHANNELWISE), CP.INTEGER)),
+    'bad_fp16_bits8': (FLOATCAST, C(None, T(8, True, dtype=DT.FLOAT), CP.FLOAT, True)),
 }
 SRQ = [k for k in CFGS if k.startswith('srq')]
 DRQ = [k for k in CFGS if k.startswith('drq')]
